@@ -77,10 +77,19 @@ def reference(fmt, vals):
         return ("abstain", repr(e))
 
 
-def run_one(acc, w, build, fmt, vals, label):
+def run_one(acc, w, build, fmt, vals, label, forms=("op", "fn")):
     ref = reference(fmt, vals)
-    for form in ("op", "fn"):
-        src = ("%s %% %s" % (jstr(fmt), jval(vals))) if form == "op" else ("std.format(%s, %s)" % (jstr(fmt), jval(vals)))
+    for form in forms:
+        if form == "op":
+            src = "%s %% %s" % (jstr(fmt), jval(vals))
+        elif form == "fn":
+            src = "std.format(%s, %s)" % (jstr(fmt), jval(vals))
+        elif form == "op-bare":     # a value that is neither array nor object stands for [value]
+            src = "%s %% %s" % (jstr(fmt), jval(vals[0]))
+        elif form == "mod-bare":
+            src = "std.mod(%s, %s)" % (jstr(fmt), jval(vals[0]))
+        else:
+            src = "std.format(%s, %s)" % (jstr(fmt), jval(vals[0]))
         acc.inc("evaluations")
         rec = w.call({"op": "eval", "code": src, "state_id": "s"}, timeout=30)
         cls, pay = outcome(rec)
@@ -126,6 +135,8 @@ def shard(idx, n, tier, seed, builds):
                     continue
                 fmt, vals = build_case(fl, wd, pr, conv, VALUES[vi])
                 run_one(acc, w, build, fmt, vals, "grid")
+                if len(vals) == 1 and not isinstance(vals[0], (list, dict)) and (i // n) % 5 == 0:
+                    run_one(acc, w, build, fmt, vals, "grid", forms=("op-bare", "mod-bare", "fn-bare"))
             for i, (fmt, vals) in enumerate(mal):
                 if i % n != idx:
                     continue
